@@ -383,3 +383,5 @@ func H_C08_feed() {
 	}
 	assert(got == expect, "consumer saw exactly the events above F")
 }
+
+func tracingForTests() *tracing.TracerComponent { return tracing.NewTracerComponent() }
